@@ -9,18 +9,24 @@
    empty / out-of-range values written as "absent". *)
 From MV Require Import Base.Val Codec.Vbi Codec.Wire Codec.Props Codec.MochiCodec Codec.SpecCodec
   Codec.SpecBridge Codec.CodecRT Codec.CodecEnc Codec.CodecNorm Codec.CodecNormProofs Codec.CodecRoundTrip
-  Findings.FixedC26.
+  Codec.CodecDecWf Codec.CodecReencode Findings.FixedC26.
 Open Scope N_scope.
 
-(* Encoding a well-formed packet of any of the 15 types under protocol version 3, 4 or 5 and decoding
-   the result with the same version (fixed header, remaining length, body — whatever follows in the
-   stream is left unread) gives the normal form of the packet; the remaining-length field of the
-   encoding is the number of bytes that follow it. *)
-Theorem C26_roundtrip : forall pk bs rest,
-  wf_packet pk = true -> mochi_encode pk = Ok bs -> Vbi.wf_bytes (bs ++ rest) ->
-  exists rem, mochi_decode_packet (pk_version pk) (bs ++ rest) = Ok (norm pk rem, rest) /\
-              exists hb body, bs = hb :: put_vbi rem ++ body /\ blen body = rem /\ rem <= 268435455.
-Proof. exact roundtrip. Qed.
+(* Encoding a well-formed packet of any of the 15 types under protocol version 3, 4 or 5 succeeds
+   (unless the packet identifier is the refused 0, C26_encoder_refuses_only_pid0), and decoding the
+   result with the same version (fixed header, remaining length, body — whatever follows in the stream
+   is left unread) gives the normal form of the packet; the remaining-length field of the encoding
+   is the number of bytes that follow it. *)
+Theorem C26_roundtrip : forall pk, wf_packet pk = true -> KF_C26_pid0 pk = false ->
+  exists bs rem, mochi_encode pk = Ok bs /\
+    (exists hb body, bs = hb :: put_vbi rem ++ body /\ blen body = rem /\ rem <= 268435455) /\
+    forall rest, Vbi.wf_bytes (bs ++ rest) ->
+      mochi_decode_packet (pk_version pk) (bs ++ rest) = Ok (norm pk rem, rest).
+Proof. exact roundtrip_total. Qed.
+
+Theorem C26_encoder_refuses_only_pid0 : forall pk, wf_packet pk = true ->
+  KF_C26_pid0 pk = true -> mochi_encode pk = Err ENoPacketID.
+Proof. exact encode_pid0. Qed.
 
 (* The encoder's output is one of the forms the standard permits for the specification-level
    packet [abs pk] (byte for byte). *)
@@ -49,20 +55,34 @@ Theorem C26_fields_preserved : forall pk rem, wf_packet pk = true ->
    exists n, pk_props q = norm_props (fh_type (pk_fh pk)) (pk_mods pk) (pk_props pk) n).
 Proof. exact norm_preserves. Qed.
 
-(* Re-encoding, as far as proved: whenever a decoded packet is well-formed and the encoder accepts
-   it, the re-encoded bytes decode to its normal form.  PARTIAL: that every packet the decoder
-   returns is well-formed (apart from the known finding below) is not proved here; the engine
-   codec_rt evaluates [wf_packet] on every decoded packet of the fuzz stream and requires the second
-   decoding to reproduce the first one otherwise. *)
-Theorem C26_reencode_partial : forall v bs pk rest bs',
-  mochi_decode_packet v bs = Ok (pk, rest) -> wf_packet pk = true -> mochi_encode pk = Ok bs' ->
-  Vbi.wf_bytes bs' ->
-  exists rem, mochi_decode_packet (pk_version pk) bs' = Ok (norm pk rem, []).
-Proof.
-  intros v bs pk rest bs' _ W E Hw.
-  destruct (roundtrip pk bs' [] W E) as (rem & H & _); [rewrite app_nil_r; exact Hw|].
-  exists rem. rewrite app_nil_r in H. exact H.
-Qed.
+(* Every packet the decoder returns is well-formed (so the theorems above apply to it), for every
+   version byte and whatever Mods the caller sets for re-encoding — with two provisos stated in the
+   hypotheses: a CONNECT must have the standard protocol name / level and no will bits without the
+   will flag ([connect_standard]: the decoder also accepts CONNECTs that ConnectValidate refuses; the
+   proof does not cover those), and the input must not be within 0.4 MB of the protocol's maximum
+   size (IN_MAX = 268000000). *)
+Theorem C26_decoded_wellformed : forall v bs pk rest m,
+  v < 256 -> Vbi.wf_bytes bs -> blen bs <= IN_MAX ->
+  mochi_decode_packet v bs = Ok (pk, rest) ->
+  (fh_type (pk_fh pk) = 1 -> connect_standard pk = true) ->
+  wf_packet (set_pk_mods m pk) = true.
+Proof. exact decoded_wf. Qed.
+
+(* Re-encoding: any byte string the decoder accepts re-encodes to bytes that decode to the normal
+   form of the decoded packet ([C26_fields_preserved] says what the normal form keeps) — modulo the
+   known finding KF_C26_pid0 and the two provisos of C26_decoded_wellformed.  The size proviso is
+   real: Properties.Decode lets the last property of a block run past the declared block length, so
+   a re-encoding can be up to one property per block longer than the accepted input. *)
+Theorem C26_reencode_modulo_findings : forall v bs pk rest m,
+  v < 256 -> Vbi.wf_bytes bs -> blen bs <= IN_MAX ->
+  mochi_decode_packet v bs = Ok (pk, rest) ->
+  (fh_type (pk_fh pk) = 1 -> connect_standard pk = true) ->
+  KF_C26_pid0 pk = false ->
+  let pk' := set_pk_mods m pk in
+  exists bs' rem, mochi_encode pk' = Ok bs' /\
+    forall rest', Vbi.wf_bytes (bs' ++ rest') ->
+      mochi_decode_packet (pk_version pk) (bs' ++ rest') = Ok (norm pk' rem, rest').
+Proof. exact reencode. Qed.
 
 (* Known finding KF_C26_pid0: the decoder accepts a packet identifier 0 where one is required; the
    encoder refuses such a packet, so these accepted byte strings cannot be re-encoded. *)
@@ -95,5 +115,7 @@ Print Assumptions C26_roundtrip.
 Print Assumptions C26_encodes_permitted_form.
 Print Assumptions C26_properties.
 Print Assumptions C26_fields_preserved.
-Print Assumptions C26_reencode_partial.
+Print Assumptions C26_encoder_refuses_only_pid0.
+Print Assumptions C26_decoded_wellformed.
+Print Assumptions C26_reencode_modulo_findings.
 Print Assumptions C26_reencode_refuted.
